@@ -351,7 +351,7 @@ class InterpAkima(InterpAlgorithm):
             if compute_local_train:
                 dm1_dv = 2.0 * dm2_dv - dm3_dv
 
-        elif idx == ngrid - 3:
+        if idx == ngrid - 3:
             m5 = 2 * m4 - m3
             if compute_local_train:
                 dm5_dv = 2.0 * dm4_dv - dm3_dv
@@ -554,7 +554,7 @@ class InterpAkima(InterpAlgorithm):
                 if self._compute_d_dvalues:
                     dm1_dv = 2 * dm2_dv - dm3_dv
 
-            elif idx == ngrid - 3:
+            if idx == ngrid - 3:
                 if self._compute_d_dx:
                     dm5 = 2 * dm4 - dm3
                 if self._compute_d_dvalues:
@@ -1057,7 +1057,7 @@ class InterpAkimaSemi(InterpAlgorithmSemi):
             if compute_local_train:
                 dm1_dv = 2.0 * dm2_dv - dm3_dv
 
-        elif idx == ngrid - 3:
+        if idx == ngrid - 3:
             m5 = 2 * m4 - m3
             if compute_local_train:
                 dm5_dv = 2.0 * dm4_dv - dm3_dv
@@ -1203,7 +1203,7 @@ class InterpAkimaSemi(InterpAlgorithmSemi):
                 if self._compute_d_dvalues:
                     dm1_dv = 2 * dm2_dv - dm3_dv
 
-            elif idx == ngrid - 3:
+            if idx == ngrid - 3:
                 dm5 = 2 * dm4 - dm3
                 if self._compute_d_dvalues:
                     dm5_dv = 2 * dm4_dv - dm3_dv
@@ -1486,7 +1486,7 @@ class Interp1DAkima(InterpAlgorithmFixed):
         elif idx == 1:
             m1 = 2 * m2 - m3
 
-        elif idx == ngrid - 3:
+        if idx == ngrid - 3:
             m5 = 2 * m4 - m3
 
         elif idx == ngrid - 2:
